@@ -203,6 +203,10 @@ class OptimizerGeneric:
                                        options=options,
                                        tol=tol)
 
+        # scipy does not guarantee a descent: never hand back a lens that is
+        # worse than the one the run started from
+        self._keep_start_if_better(result, x0)
+
         # The last function evaluation is not necessarily the best one.
         # Update all lens variables to their optimized values
         for idvar, var in enumerate(self.problem.variables):
@@ -210,6 +214,21 @@ class OptimizerGeneric:
         self.problem.update_optics()
 
         return result
+
+    def _keep_start_if_better(self, result, x0):
+        """
+        Replace the solution by the starting point when the objective of the
+        solution is not at least as good as at the start.
+
+        Args:
+            result (OptimizeResult): The result returned by scipy.
+            x0 (list): The (scaled) variable values the run started from.
+        """
+        f0 = self._fun(x0)
+        if not self._fun(result.x) <= f0:
+            result.x = np.array(x0, dtype=float)
+            if np.ndim(result.fun) == 0:
+                result.fun = f0
 
     def undo(self):
         """
@@ -303,6 +322,10 @@ class LeastSquares(OptimizerGeneric):
                                             verbose=verbose,
                                             ftol=tol)
 
+        # scipy does not guarantee a descent: never hand back a lens that is
+        # worse than the one the run started from
+        self._keep_start_if_better(result, x0)
+
         # The last function evaluation is not necessarily the best one.
         # Update all lens variables to their optimized values
         for idvar, var in enumerate(self.problem.variables):
@@ -351,6 +374,10 @@ class DualAnnealing(OptimizerGeneric):
                                              bounds=bounds,
                                              maxiter=maxiter,
                                              x0=x0)
+
+        # scipy does not guarantee a descent: never hand back a lens that is
+        # worse than the one the run started from
+        self._keep_start_if_better(result, x0)
 
         # The last function evaluation is not necessarily the best one.
         # Update all lens variables to their optimized values
@@ -420,6 +447,10 @@ class DifferentialEvolution(OptimizerGeneric):
                                                      disp=disp,
                                                      updating=updating,
                                                      workers=workers)
+
+        # scipy does not guarantee a descent: never hand back a lens that is
+        # worse than the one the run started from
+        self._keep_start_if_better(result, x0)
 
         # The last function evaluation is not necessarily the best one.
         # Update all lens variables to their optimized values
